@@ -218,6 +218,66 @@ fn op_compound(req: &Value) -> Value {
     }
 }
 
+/// C05 concatenation sweep: for every pair (a, b) the one-word spelling `ab` is parsed as a unit; if it is
+/// accepted and reads differently from `a*b` (or `a*b` is not accepted), the word and its reading are reported
+/// so that the segmentation oracle in Python can judge it. Agreeing pairs are only counted.
+fn op_c05_concat(req: &Value) -> Value {
+    let a = strs(&req["a"]);
+    let b = strs(&req["b"]);
+    let threads = (req["threads"].as_u64().unwrap_or(16) as usize).max(1);
+    let chunks: Vec<Vec<String>> = (0..threads).map(|t| a.iter().skip(t).step_by(threads).cloned().collect()).collect();
+    let results: Vec<(u64, u64, u64, Vec<Value>)> = std::thread::scope(|scope| {
+        let handles: Vec<_> = chunks
+            .iter()
+            .map(|chunk| {
+                let b = &b;
+                scope.spawn(move || {
+                    let (mut pairs, mut accepted, mut agree) = (0u64, 0u64, 0u64);
+                    let mut out = Vec::new();
+                    let mut word = String::new();
+                    let mut prod = String::new();
+                    for x in chunk {
+                        for y in b {
+                            pairs += 1;
+                            word.clear();
+                            word.push_str(x);
+                            word.push_str(y);
+                            let r1 = match catch_unwind(|| word.parse::<Compound>()) {
+                                Ok(Ok(c)) => c,
+                                Ok(Err(..)) => continue,
+                                Err(p) => {
+                                    out.push(json!({"word": word, "panic": vharness::panic_message(&p)}));
+                                    continue;
+                                }
+                            };
+                            accepted += 1;
+                            prod.clear();
+                            prod.push_str(x);
+                            prod.push('*');
+                            prod.push_str(y);
+                            match catch_unwind(|| prod.parse::<Compound>()) {
+                                Ok(Ok(c2)) if c2 == r1 => agree += 1,
+                                _ => out.push(json!({"word": word, "a": x, "b": y, "u": unit_json(&r1)})),
+                            }
+                        }
+                    }
+                    (pairs, accepted, agree, out)
+                })
+            })
+            .collect();
+        handles.into_iter().filter_map(|h| h.join().ok()).collect()
+    });
+    let mut differing = Vec::new();
+    let (mut pairs, mut accepted, mut agree) = (0u64, 0u64, 0u64);
+    for (p, ac, ag, o) in results {
+        pairs += p;
+        accepted += ac;
+        agree += ag;
+        differing.extend(o);
+    }
+    json!({"pairs": pairs, "accepted": accepted, "agree_with_product": agree, "differing": differing})
+}
+
 fn hex(b: Vec<u8>) -> String {
     let mut s = String::with_capacity(b.len() * 2);
     for x in b {
@@ -273,7 +333,7 @@ fn op_c12_sweep(req: &Value) -> Value {
     };
 
     json!({
-        "strings": sw.strings, "pumped": sw.pumped, "tokens": sw.tokens, "inner_nodes": sw.inner_nodes,
+        "strings": sw.strings, "pumped": sw.pumped, "interleaved": sw.interleaved, "tokens": sw.tokens, "inner_nodes": sw.inner_nodes,
         "max_depth": sw.max_depth,
         "distinct_token_kind_sequences": sw.distinct_token_kind_sequences,
         "distinct_tree_shapes": sw.distinct_tree_shapes,
@@ -784,6 +844,7 @@ fn handle(st: &mut State, req: &Value) -> Value {
         "rational" => op_rational(req),
         "display" => op_display(req),
         "compound" => op_compound(req),
+        "c05_concat" => op_c05_concat(req),
         "lex" => op_lex(req),
         "c12_sweep" => op_c12_sweep(req),
         "c07_sweep" => op_c07_sweep(st, req),
